@@ -50,6 +50,8 @@ class C10:
         sc = {"harness": "synthetic", "rows": rows, "cols": cols, "data_seed": rnd.getrandbits(32),
               "p_flag": rnd.choice([0.0, 0.0, 0.03, 0.1, 0.3, 0.9]), "p_nan_valid": rnd.choice([0.0, 0.0, 0.0, 0.02, 0.1]),
               "fractional": rnd.random() < 0.5, "value_range": rnd.choice([2, 5, 40]), "filters": filters}
+        # memory layout of the arrays handed to the filter: row-major, column-major, or a strided view of a larger array
+        sc["layout"] = rnd.choice(["C", "C", "F", "view"])
         if not big:
             sc["knobs"] = {"median_chunk": rnd.choice([1, 2, 3, 5, 7, 50, 100]),
                            "bilateral_chunk": rnd.choice([1, 2, 3, 5, 7, 50, 100])}
@@ -85,13 +87,24 @@ class C10:
                 for lab in ("confidence_from_interval_bounds_inf" + sfx, "confidence_from_interval_bounds_sup" + sfx):
                     if lab not in labels:
                         labels.append(lab)
+        def lay(a):
+            if sc.get("layout", "C") == "F":
+                return np.asfortranarray(a)
+            if sc.get("layout") == "view":
+                big_ = np.zeros(tuple(2 * n + 3 for n in a.shape[:2]) + a.shape[2:], dtype=a.dtype)
+                v = big_[1:1 + 2 * a.shape[0]:2, 2:2 + 2 * a.shape[1]:2]
+                v[...] = a
+                return v
+            return a
+
+        disp, flags = lay(disp), lay(flags)
         ds = xr.Dataset({"disparity_map": (["row", "col"], disp), "validity_mask": (["row", "col"], flags)},
                         coords={"row": np.arange(rows), "col": np.arange(cols)})
         if labels:
             labels = ["confidence_from_ambiguity"] + labels
             conf = g.integers(-vr, vr + 1, size=(rows, cols, len(labels))).astype(np.float32)
             conf[g.random(conf.shape) < 0.05] = np.nan
-            ds["confidence_measure"] = xr.DataArray(conf, dims=["row", "col", "indicator"], coords={"indicator": labels})
+            ds["confidence_measure"] = xr.DataArray(lay(conf), dims=["row", "col", "indicator"], coords={"indicator": labels})
         ds.attrs = {"offset_row_col": 0}
         knobs_.set_knobs(sc.get("knobs"))
 
@@ -131,9 +144,10 @@ class C10:
         pr["synthetic_map"] = 1
         pr["synthetic_map_without_any_invalid_pixel"] = int(not sel.any())
         pr["valid_pixel_without_disparity"] = int(bool(nanv.any()))
+        pr["synthetic_map_layout:" + sc.get("layout", "C")] = 1
         return {"violations": rec.violations, "cov": ctx.cov, "probes": pr,
                 "shape": harness.jdump(["synthetic", [f["filter_method"] for f in sc["filters"]], sc["p_flag"],
-                                        sc["p_nan_valid"], sc.get("knobs"), rows // 8, cols // 8]),
+                                        sc["p_nan_valid"], sc.get("knobs"), sc.get("layout"), rows // 8, cols // 8]),
                 "digest": probes.digest_dataset(ds), "steps": len(sc["filters"]),
                 "evaluations": 1 if ctx.cov.get("filter_events_checked") else 0}
 
